@@ -346,11 +346,11 @@ def run_property(prop, tier, seed, timeout, args, t_start):
                 else:
                     violations.append((name, path, True))
                 continue
-        if msg.startswith("UNSUPPORTED") and q in reg.contracts:
+        if msg.startswith(("UNSUPPORTED", "ENGINE FAILURE")) and q in reg.contracts:
             # the function's current source leaves the subset of Python the generator accepts (or calls a library function in a
             # form no assumed contract covers): none of its obligations can be generated, hence none is discharged.  That is
             # reported like any other undischarged obligation -- without a failing input.
-            name = f"{q.replace('pyrepseq.', '')}/not-verifiable[{msg[12:90].strip()}]"
+            name = f"{q.replace('pyrepseq.', '')}/not-verifiable[{msg.split(' ', 1)[1][:80].strip() if ' ' in msg else msg[:80]}]"
             path = write_replay(prop, q, name, None, {"engine": msg, "note": "no obligation of this function could be generated from its "
                                                       "current source; every obligation of the function is undischarged"}, False)
             violations.append((name, path, False))
